@@ -66,6 +66,23 @@ func (m *bmodel) freshTA(o *bop, et, n int) *mview {
 	return &mview{id: o.res, buf: b, et: et, n: n, hook: o.resHk}
 }
 
+// speciesTA is TypedArraySpeciesCreate / TypedArrayCreateFromCtor with a single length argument: normally a fresh
+// array; when the species constructor of this step hands out something else (m.alias) that object is validated the
+// way the spec does: ok=false (TypeError) if it is shorter than requested.
+func (m *bmodel) speciesTA(o *bop, et, n int) (*mview, bool) {
+	a := m.alias
+	if a == nil {
+		return m.freshTA(o, et, n), true
+	}
+	if a.n < n {
+		return nil, false
+	}
+	if a.buf == nil {
+		return m.freshTA(o, et, a.n), true
+	}
+	return &mview{id: -1, buf: a.buf, off: a.off, n: a.n, et: et}, true
+}
+
 func newObj(e *expect, v *mview) {
 	e.newView = v
 	e.newBuf = v.buf
@@ -214,6 +231,11 @@ func (m *bmodel) apply(o *bop) (e expect) {
 			lo2, hi2 := v2.off, v2.off+v2.byteLen()
 			if lo1 < hi2 && lo2 < hi1 {
 				m.count("overlapping-set")
+				if lo1 > lo2 {
+					m.count("overlapping-set-forward")
+				} else if lo1 < lo2 {
+					m.count("overlapping-set-backward")
+				}
 				if v.et != v2.et {
 					m.count("overlapping-set-different-type")
 				}
@@ -256,8 +278,18 @@ func (m *bmodel) apply(o *bop) (e expect) {
 		}
 		k, fin := relIndex(o.a[0].val(0), v.n), relIndex(o.a[1].val(float64(v.n)), v.n)
 		cnt := max(fin-k, 0)
-		r := m.freshTA(o, v.et, cnt)
-		copy(r.buf.data, v.buf.data[v.off+k*v.size():v.off+(k+cnt)*v.size()])
+		r, ok := m.speciesTA(o, v.et, cnt)
+		if !ok {
+			e.outcomes = typeErr
+			return
+		}
+		// same element type: the bytes are transferred one at a time in ascending order (observable when the species
+		// constructor returned a view over the same buffer that starts inside the source range)
+		src, dst := v.off+k*v.size(), r.off
+		r.buf.touch(dst, dst+cnt*v.size())
+		for i := 0; i < cnt*v.size(); i++ {
+			r.buf.data[dst+i] = v.buf.data[src+i]
+		}
 		newObj(&e, r)
 
 	case boSubarray:
@@ -483,7 +515,14 @@ func (m *bmodel) apply(o *bop) (e expect) {
 		newObj(&e, m.freshTA(o, o.et, int(n)))
 
 	case boNewArr, boOf:
-		dst := m.freshTA(o, o.et, len(o.vals))
+		dst, ok := m.freshTA(o, o.et, len(o.vals)), true
+		if o.kind == boOf && o.ctorHk {
+			dst, ok = m.speciesTA(o, o.et, len(o.vals))
+		}
+		if !ok {
+			e.outcomes = typeErr
+			return
+		}
 		for i, x := range o.vals {
 			if !dst.set(i, x.v) {
 				e.outcomes = typeErr
@@ -505,7 +544,14 @@ func (m *bmodel) apply(o *bop) (e expect) {
 			}
 			vals = v2.values()
 		}
-		dst := m.freshTA(o, o.et, len(vals))
+		dst, ok := m.freshTA(o, o.et, len(vals)), true
+		if o.ctorHk {
+			dst, ok = m.speciesTA(o, o.et, len(vals))
+		}
+		if !ok {
+			e.outcomes = typeErr
+			return
+		}
 		e.cb = []string{}
 		for i, x := range vals {
 			if o.srcArr && o.vals[i].probe && o.sub == 0 {
@@ -661,7 +707,11 @@ func (m *bmodel) applyIter(o *bop, v *mview, e *expect) {
 	n := v.n
 	switch o.sub {
 	case itMap:
-		dst := m.freshTA(o, v.et, n)
+		dst, ok := m.speciesTA(o, v.et, n)
+		if !ok {
+			e.outcomes = typeErr
+			return
+		}
 		for i := 0; i < n; i++ {
 			x := visit(i)
 			switch o.cbM {
@@ -684,7 +734,11 @@ func (m *bmodel) applyIter(o *bop, v *mview, e *expect) {
 				kept = append(kept, v.raw(i))
 			}
 		}
-		dst := m.freshTA(o, v.et, len(kept))
+		dst, ok := m.speciesTA(o, v.et, len(kept))
+		if !ok {
+			e.outcomes = typeErr
+			return
+		}
 		for i, r := range kept {
 			dst.putRaw(i, r, etFloat(v.et) && rawToNumeric(v.et, r).isNaN())
 		}
